@@ -124,8 +124,33 @@ def history_oracle(out, obs, spec, request, vals, calls, deps, needed, entry):
     return out
 
 
+def run_one_threads(tape, cfg, out):
+    from sim import schedthreads as st
+
+    spec, tcfg, clients, reqs = c01.gen_threads_workload(tape, cfg)
+    vals, calls, deps = gg.evaluate(spec)
+    obs_list, sched = st.run_threads(tape, spec, clients, tcfg)
+    needs = [gg.needed(spec, c["request"], deps) for c in clients]
+    c01.threads_outcome(out, obs_list, sched, spec, reqs, tcfg, [len(n) for n in needs])
+    if any(len(n) < len(spec["nodes"]) for n in needs):
+        out.probe("unneeded_present")
+    for i, (obs, c) in enumerate(zip(obs_list, clients)):
+        if obs.exc is not None:
+            d = sr.describe_exc(obs.exc)
+            return out.violate("needed_not_executed_call_raised",
+                               f"client {i}: {d['exc_type']} at {d['site']}: {d['msg']}", **d,
+                               entry="threads", chunksize=tcfg["chunksize"])
+        history_oracle(out, obs, spec, c["request"], vals, calls, deps, needs[i], "threaded")
+        if out.status == "violation":
+            out.message = f"client {i}: " + out.message
+            return out
+    return out
+
+
 def run_one(tape, cfg):
     out = Outcome()
+    if c01.use_threads(tape, cfg):
+        return run_one_threads(tape, cfg, out)
     spec, req_json, request, rcfg = c01.gen_workload(tape, cfg)
     vals, calls, deps = gg.evaluate(spec)
     needed = gg.needed(spec, request, deps)
